@@ -510,13 +510,18 @@ pub fn c32_helpers(rep: &mut Report, cli: &Cli) {
 
 pub fn run_c32(cli: &Cli) -> Report {
     let mut rep = Report::new(cli, "exploration");
-    rep.rule("E1: the four builder-fee helpers of ops/order.rs (through visibility hooks) over boundary and dense sizes x factors (0 .. above 100%) x min/max prices x collateral increments x withdrawal amounts x swap types against exact big-integer arithmetic: fee = ceil(floor(size*factor/UNIT)/price_min), clamp = min, increment split exact or refused, withdrawal estimate = withdrawal + fee; settlement (settle_builder_fee instruction twice over a grid of recorded amounts and escrow balances) runs in the instruction-level world; non-trivial = the helper returned a value");
+    rep.rule("E1: the four builder-fee helpers of ops/order.rs (through visibility hooks) over boundary and dense sizes x factors (0 .. above 100%) x min/max prices x collateral increments x withdrawal amounts x swap types against exact big-integer arithmetic: fee = ceil(floor(size*factor/UNIT)/price_min), clamp = min, increment split exact or refused, withdrawal estimate = withdrawal + fee; non-trivial = the helper returned a value. Settlement, E3 breadth first: the real settle_builder_fee instruction on a real pending decrease order from twenty start states (recorded amount x escrow balance, the record attached through a visibility hook because no instruction sets a builder yet) with repeated settlements by the recorded builder, by another user and without builder accounts, tokens arriving in the escrow and further fees being recorded in between: each settlement moves exactly min(recorded, escrow) to the builder's vault and nowhere else, never more than recorded, zeroes the record (a repeated settlement is a no-op), and over a history the builder never receives more than was ever recorded");
+    rep.assume("svm-lite runtime trusted; execution never charges a builder fee on the unchanged tree (the factor passed to the helpers is the constant 0), so the increase/decrease clauses are decided on the helpers");
     if let Some(rv) = &cli.replay {
+        if rv.get("path").is_some() {
+            crate::c32s::run(&mut rep, cli);
+            return rep;
+        }
         rep.sample(json!({"note": "closed-form case: re-run the quick tier", "case": rv}));
         rep.evaluations = 1;
         return rep;
     }
     c32_helpers(&mut rep, cli);
-    crate::world::c32_settlement(&mut rep, cli);
+    crate::c32s::run(&mut rep, cli);
     rep
 }
